@@ -325,6 +325,55 @@ def tagged_family(tier):
     return out
 
 
+# member type -> (schema, intrinsic default or None, non-intrinsic default or None)
+MEMBER_TYPES = {
+    "string": (STR, "", "dflt"), "integer": (INT, 0, 7), "u8": ({"type": "integer", "format": "uint8", "minimum": 0}, 0, 9), "bool": (BOOL, False, True),
+    "number": ({"type": "number"}, None, None), "str_max2": ({"type": "string", "maxLength": 2}, "", "ab"),
+    "enum_ab": ({"type": "string", "enum": ["a", "b"]}, None, "b"), "vec": ({"type": "array", "items": INT}, [], [3]),
+    "set": ({"type": "array", "items": INT, "uniqueItems": True}, [], [3]),
+    "map": ({"type": "object", "additionalProperties": INT}, {}, {"tier": 2}), "map_any": ({"type": "object"}, {}, {"k": [1]}),
+    "nullable": ({"type": ["string", "null"]}, None, "nd"), "tuple": ({"type": "array", "items": [INT, STR], "minItems": 2, "maxItems": 2}, None, [7, "d"]),
+    "unit": ({"type": "null"}, None, None), "any": ({}, None, {"d": 1}), "uuid": ({"type": "string", "format": "uuid"}, None, None),
+    "inline_struct": (obj({"q": INT}, ["q"]), None, {"q": 1}),
+}
+
+
+def _member(tname, state):
+    schema, intrinsic, other = MEMBER_TYPES[tname]
+    s = copy.deepcopy(schema)
+    if state == "dflt_intrinsic":
+        if intrinsic is None and tname != "nullable":
+            return None
+        s["default"] = intrinsic
+    elif state == "dflt":
+        if other is None:
+            return None
+        s["default"] = other
+    return s
+
+
+def member_family(tier):
+    """systematic product: struct members (type x state {required, optional, intrinsic default, non-intrinsic default}); singles, and
+    (thorough) ordered pairs: the serde attributes typify picks depend on exactly this pair"""
+    out = []
+    states = ["req", "opt", "dflt_intrinsic", "dflt"]
+    specs = []
+    for t in MEMBER_TYPES:
+        for st in states:
+            m = _member(t, st)
+            if m is not None:
+                specs.append((t, st, m))
+    for (t, st, m) in specs:
+        out.append(L("member[%s:%s]" % (t, st), obj({"a": m, "z": INT}, ["a"] if st == "req" else []), ff=t not in ("set", "number"), enf=False))
+    if tier != "quick":
+        core = [x for x in specs if x[0] in ("string", "str_max2", "vec", "map", "nullable", "enum_ab", "inline_struct", "unit")]
+        for (t1, s1, m1) in core:
+            for (t2, s2, m2) in core:
+                req = [n for n, st in (("a", s1), ("b", s2)) if st == "req"]
+                out.append(L("member2[%s:%s,%s:%s]" % (t1, s1, t2, s2), obj({"a": m1, "b": m2}, req), ff=True, enf=False))
+    return out
+
+
 def shapes_depth2(tier):
     """(L ∪ K(default leaves)) — list of shape dicts."""
     out = []
@@ -339,6 +388,7 @@ def shapes_depth2(tier):
                 out.append(k)
     out.extend(SOLO_COMPOSITES)
     out.extend(tagged_family(tier))
+    out.extend(member_family(tier))
     return out
 
 
